@@ -16,6 +16,7 @@ package props
 // never a panic.
 
 import (
+	"encoding/binary"
 	"bytes"
 	"fmt"
 	"testing"
@@ -183,6 +184,26 @@ func c04Handshake(c *core.Case, a, b *vnet.Node, f c04Fault, prev *c04Run, locks
 				r.badRecv[to] = true
 				ends[to].Close()
 				_ = ends[to].WaitDone()
+			case "shorten":
+				// The message loses bytes at its end and its length prefix says so:
+				// framing stays intact, the message is altered. Where the message
+				// ends in zero bytes, the cut may take exactly those.
+				r.authentic = false
+				cut := 1 + f.pos%3
+				zeros := 0
+				for zeros < len(msg)-3 && msg[len(msg)-1-zeros] == 0 {
+					zeros++
+				}
+				if zeros > 0 && f.bit < 6 {
+					cut = zeros
+					c.Class("fault-shorten/exactly-the-zero-bytes-at-the-end")
+				}
+				if cut > len(msg)-3 {
+					cut = 1
+				}
+				mut := append([]byte(nil), msg[:len(msg)-cut]...)
+				binary.BigEndian.PutUint16(mut[:2], uint16(len(mut))) // the prefix counts itself
+				deliver(to, mut, false)
 			case "drop":
 				r.authentic = false
 			case "duplicate":
@@ -316,7 +337,7 @@ func TestC04(t *testing.T) {
 
 		f := c04Fault{kind: "none"}
 		if compatible {
-			f.kind = core.OneOf(c, "fault", "none", "flip", "flip", "flip", "truncate", "drop", "duplicate", "reorder", "replay", "reflect", "keys-lost")
+			f.kind = core.OneOf(c, "fault", "none", "flip", "flip", "flip", "truncate", "drop", "duplicate", "reorder", "replay", "reflect", "keys-lost", "shorten", "shorten")
 		}
 		f.dir, f.idx = c.Pick("fault.dir", 2), c.Pick("fault.idx", 3)
 		f.pos, f.bit = c.Uniform("fault.pos", 0, 399), c.Uniform("fault.bit", 0, 7)
